@@ -155,6 +155,33 @@ func ruleLeaderPlaceholder(c *Ctx) {
 			_, fails := requireAt(P, fn, 0, []Ev{nn}, func(x ssa.Instruction) bool { return x == at }, all)
 			hasAlloc = len(fails) == 0
 		}
+		// the region's leader is one of the alternatives, and it is the one taken exactly when there is a leader
+		hasLeader := false
+		for _, v := range valueAlternatives(elem, 3) {
+			if valueIsCallTo(v, getLeader) {
+				hasLeader = true
+			}
+		}
+		if !hasLeader {
+			okAll, detail = false, "the region's own leader is never the entry"
+		}
+		if isPhi && okAll {
+			nn := guardRel("the region's leader is not nil", "!=", resultOfCall(getLeader), isNilConst)
+			for i, e := range phi.Edges {
+				if i >= len(phi.Block().Preds) {
+					continue
+				}
+				pred := phi.Block().Preds[i]
+				last := pred.Instrs[len(pred.Instrs)-1]
+				_, fails := requireAt(P, fn, 0, []Ev{nn}, func(x ssa.Instruction) bool { return x == last }, all)
+				if valueIsCallTo(e, getLeader) && len(fails) > 0 {
+					okAll, detail = false, "the leader is taken without having been found non-nil"
+				}
+				if _, isAlloc := e.(*ssa.Alloc); isAlloc && len(fails) == 0 {
+					okAll, detail = false, "the empty peer is taken although the leader was found non-nil"
+				}
+			}
+		}
 		c.Check(okAll && hasAlloc, rule, what+" in "+fnName(fn), "the leader entry is the region's leader or, when it has none, a fresh empty peer", P.instrPos(at), detail+map[bool]string{true: "", false: " (no empty-peer alternative)"}[hasAlloc])
 	}
 	n := 0
@@ -347,12 +374,12 @@ func ruleFollowerApply(c *Ctx) {
 	getRegions := F(P.Method(pdpb, "SyncRegionResponse", "GetRegions"))
 	var fn *ssa.Function
 	for _, f := range append([]*ssa.Function{start}, start.AnonFuncs...) {
-		if len(callsIn(f, false, record)) > 0 {
+		if len(callsIn(f, false, record))+len(callsIn(f, false, checkPut))+len(callsIn(f, false, saveRegion)) > 0 {
 			fn = f
 		}
 	}
 	if fn == nil {
-		undecidedf("follower loop calling history.Record not found")
+		undecidedf("follower loop (CheckAndPutRegion / SaveRegion / history.Record) not found")
 	}
 	c.saw(fnName(fn))
 	okSave := newOkEv(fn, "ok(SaveRegion)", callMatcher(saveRegion))
@@ -387,6 +414,57 @@ func ruleFollowerApply(c *Ctx) {
 	nextIdx := F(P.Method(rs, "historyBuffer", "GetNextIndex"))
 	c.need(rule, fn, "call ResetWithIndex", instrCallMatcher(resetIdx), []Ev{guardRel("own next index != leader start index", "!=", resultOfCall(nextIdx), resultOfCall(getStart))}, all,
 		"the follower re-bases its change log only when its index differs from the leader's")
+	// completeness of the follower's apply loop (the converse of the rules above)
+	c.mustFollowEdge(rule, fn, "own next index != leader start index", func(cond ssa.Value, pos bool) bool {
+		r, ok := relOf(cond, pos)
+		return ok && matchRel(r, "!=", resultOfCall(nextIdx), resultOfCall(getStart))
+	}, "ResetWithIndex(leader start index)", func(x ssa.Instruction) bool {
+		ci, ok := x.(ssa.CallInstruction)
+		if !ok || !resetIdx.Match(ci.Common()) {
+			return false
+		}
+		a := callArgs(ci.Common())
+		return len(a) == 1 && valueIsCallTo(a[0], getStart)
+	}, nil, "a follower whose index differs from the leader's re-bases its change log on the leader's start index before it applies the records")
+	newRI := F(P.Func("server/core", "NewRegionInfo"))
+	c.mustFollow(rule, fn, "NewRegionInfo (a received region)", instrCallMatcher(newRI), "CheckAndPutRegion", instrCallMatcher(checkPut), nil,
+		"every region received is put into the follower's cache")
+	c.mustFollow(rule, fn, "CheckAndPutRegion", instrCallMatcher(checkPut), "SaveRegion", instrCallMatcher(saveRegion), nil,
+		"every region received is saved to the follower's region storage")
+	c.Check(len(callsIn(fn, false, record)) > 0, rule, "history.Record in "+fnName(fn), "the follower enters what it applied in its own change log", P.pos(fn.Pos()), "no call of history.Record")
+	c.mustFollowEdge(rule, fn, "SaveRegion returned nil", func(cond ssa.Value, pos bool) bool {
+		r, ok := relOf(cond, pos)
+		return ok && matchRel(r, "==", func(v ssa.Value) bool { return valueIsCallTo(v, saveRegion) }, isNilConst)
+	}, "history.Record", instrCallMatcher(record), nil, "a region that was saved is entered in the follower's change log (its index keeps pace with the leader's)")
+	// what is put is what was built from the message: no path puts a nil region, and the leader comes from the
+	// message's leader list
+	for _, ci := range callsIn(fn, false, checkPut) {
+		a := callArgs(ci.Common())
+		okAlt := len(a) == 1
+		if okAlt {
+			for _, alt := range valueAlternatives(a[0], 3) {
+				if !valueIsCallTo(alt, newRI) {
+					okAlt = false
+				}
+			}
+		}
+		c.Check(okAlt, rule, "region given to CheckAndPutRegion in "+fnName(fn), "on every path a region built from the message (NewRegionInfo)", P.instrPos(ci.(ssa.Instruction)), "")
+	}
+	fromLeaders := false
+	for _, ci := range callsIn(fn, false, newRI) {
+		a := callArgs(ci.Common())
+		if len(a) < 2 {
+			continue
+		}
+		for _, alt := range valueAlternatives(a[1], 3) {
+			if u, ok := strip(alt).(*ssa.UnOp); ok {
+				if ia, ok := u.X.(*ssa.IndexAddr); ok && valueIsCallTo(ia.X, getLeaders) {
+					fromLeaders = true
+				}
+			}
+		}
+	}
+	c.Check(fromLeaders, rule, "leader given to NewRegionInfo in "+fnName(fn), "can be the entry of the message's leader list", P.pos(fn.Pos()), "")
 }
 
 // rulePerRegionLeader: on the follower every region of a response is built
@@ -567,7 +645,7 @@ func ruleHistoryReset(c *Ctx) {
 func init() {
 	register("C16", "Followers converge to the leader's region view through region sync", func(c *Ctx) {
 		c.Group("C16/slice-congruence", "at every SyncRegionResponse literal carrying regions, Regions / RegionStats / RegionLeaders are length-congruent on every path and loop iteration", func() { ruleSyncArrays(c) })
-		c.Group("C16/sender-pairing", "meta, statistics and leader of one entry come from one region and one index; start indexes; full sync skipped only when exactly in sync", func() { ruleSenderPairing(c) })
+		c.Group("C16/sender-pairing", "meta, statistics and leader of one entry come from one region and one index; start indexes; full sync skipped only when exactly in sync", func() { ruleSenderPairing(c); ruleStreamsRegistered(c) })
 		c.Group("C16/leader-placeholder", "a leaderless region is sent with an empty peer in its slot", func() { ruleLeaderPlaceholder(c) })
 		c.Group("C16/history", "change-log buffer: fields under its lock; index++ and flush accounting on every record, persisted every defaultFlushCount=100; RecordsFrom answers only inside the window and returns a copy", func() { ruleHistoryBuffer(c); ruleHistoryReset(c); ruleRingModulus(c) })
 		c.Group("C16/follower-apply", "the follower records a region only after put+save, indexes leaders/stats only under length guards, re-bases on index mismatch", func() { ruleFollowerApply(c); rulePerRegionLeader(c); ruleSyncMessageLimit(c); ruleFollowerFieldMap(c) })
@@ -608,9 +686,7 @@ func ruleSenderPairing(c *Ctx) {
 					if f == nil || !getters[f.Name()] || fnPkgPath(f) != modPath+"/server/core" || len(x.Call.Args) != 1 {
 						continue
 					}
-					if f.Name() == "GetMeta" {
-						hasMeta = true
-					}
+					hasMeta = true // a loop reading regions for a message (any of the three getters)
 					recvs = append(recvs, x.Call.Args[0])
 				case *ssa.Store:
 					if ia, ok := x.Addr.(*ssa.IndexAddr); ok {
@@ -645,11 +721,110 @@ func ruleSenderPairing(c *Ctx) {
 				okI = false
 			}
 		}
+		for _, g := range []string{"GetMeta", "GetStat", "GetLeader"} {
+			gname := g
+			filed := everyIterationCalls(l, func(x ssa.Instruction) bool {
+				st, ok := x.(*ssa.Store)
+				if !ok {
+					return false
+				}
+				if _, isIdx := st.Addr.(*ssa.IndexAddr); !isIdx {
+					return false
+				}
+				for _, alt := range valueAlternatives(st.Val, 3) {
+					if cl, _ := callOf(alt); cl != nil {
+						if f := cl.Call.StaticCallee(); f != nil && f.Name() == gname && fnPkgPath(f) == modPath+"/server/core" {
+							return true
+						}
+					}
+				}
+				return false
+			})
+			c.Check(filed, rule, fmt.Sprintf("%s filed in list-filling loop #%d of %s", gname, nLoops, fnName(fn)), "every region of the batch contributes its meta, statistics and leader entry", P.pos(lpos), "an iteration can pass without filing it")
+		}
 		c.Check(okR, rule, fmt.Sprintf("region read in list-filling loop #%d of %s", nLoops, fnName(fn)), "meta, statistics and leader of one entry come from the same region", P.pos(lpos), "the getters are called on different regions")
 		c.Check(okI, rule, fmt.Sprintf("index used in list-filling loop #%d of %s", nLoops, fnName(fn)), "the three lists are stored under the same index", P.pos(lpos), "different index expressions")
 	}
 	if nLoops < 2 {
 		c.Undec(rule, "list-filling loops in "+fnName(fn), "2 (full and incremental)", "", fmt.Sprint(nLoops))
+	}
+	// the batching loop of the full sync sends what it gathered: an iteration goes round without sending only when
+	// it is not the last one (the tail batch is never left behind)
+	send := P.IMethod("github.com/pingcap/kvproto/pkg/pdpb", "PD_SyncRegionsServer", "Send")
+	nB := 0
+	for _, l := range loopsOf(fn) {
+		hasSend := false
+		for b := range l.blocks {
+			for _, ins := range b.Instrs {
+				if isCallTo(ins, send) {
+					hasSend = true
+				}
+			}
+		}
+		if !hasSend {
+			continue
+		}
+		nB++
+		hdr := l.header
+		isNotLast := func(cond ssa.Value, pos bool) bool {
+			r, ok := relOf(cond, pos)
+			return ok && matchRel(r, "<", anyVal, func(v ssa.Value) bool {
+				bo, ok := strip(v).(*ssa.BinOp)
+				if !ok || bo.Op != token.SUB {
+					return false
+				}
+				k, isC := constInt(bo.Y)
+				return isC && k == 1 && lenOf(anyVal)(bo.X)
+			})
+		}
+		// walk one iteration: from the header round to the header, remembering whether a Send was passed and
+		// whether "not the last region" was established by a test on the way
+		type st struct {
+			b             *ssa.BasicBlock
+			sent, notLast bool
+		}
+		seen := map[st]bool{}
+		okTail, at := true, ""
+		var walk func(x st)
+		walk = func(x st) {
+			if seen[x] || !okTail {
+				return
+			}
+			seen[x] = true
+			for _, ins := range x.b.Instrs {
+				if isCallTo(ins, send) {
+					x.sent = true
+				}
+			}
+			last := x.b.Instrs[len(x.b.Instrs)-1]
+			for si, su := range x.b.Succs {
+				if !l.blocks[su] {
+					continue
+				}
+				n := st{su, x.sent, x.notLast}
+				if iff, ok := last.(*ssa.If); ok {
+					if cond, pos := ifCond(iff, si == 0); isNotLast(cond, pos) {
+						n.notLast = true
+					}
+				}
+				if su == hdr {
+					if !n.sent && !n.notLast {
+						okTail, at = false, P.instrPos(last)
+					}
+					continue
+				}
+				walk(n)
+			}
+		}
+		for _, su := range hdr.Succs {
+			if l.blocks[su] {
+				walk(st{su, false, false})
+			}
+		}
+		c.Check(okTail, rule, fmt.Sprintf("batching loop #%d of %s", nB, fnName(fn)), "an iteration goes round without a Send only when more regions follow (index < len-1): the last, partial batch is sent", P.pos(fn.Pos()), "an iteration can end at "+at+" without sending although it may be the last")
+	}
+	if nB == 0 {
+		c.Undec(rule, "batching loop of the full sync in "+fnName(fn), "found", P.pos(fn.Pos()), "")
 	}
 	// start index
 	pb := "github.com/pingcap/kvproto/pkg/pdpb"
@@ -761,5 +936,54 @@ func ruleFollowerFieldMap(c *Ctx) {
 	}
 	if n == 0 {
 		c.Undec(rule, "follower loop rebuilding flow statistics", "found", "", "")
+	}
+}
+
+// ruleStreamsRegistered: a follower whose history sync succeeded is registered
+// for the broadcasts, and every broadcast goes to every registered follower.
+func ruleStreamsRegistered(c *Ctx) {
+	P := c.P
+	const rs = "server/region_syncer"
+	rule := c.Prop + "/sender-pairing"
+	syncFn := P.Method(rs, "RegionSyncer", "Sync")
+	hist := F(P.Method(rs, "RegionSyncer", "syncHistoryRegion"))
+	bind := P.Method(rs, "RegionSyncer", "bindStream")
+	c.mustFollow(rule, syncFn, "syncHistoryRegion", instrCallMatcher(hist), "bindStream", instrCallMatcher(F(bind)), errorExit,
+		"a follower that was brought up to date is registered for the broadcasts that follow")
+	isStreamsUpdate := func(x ssa.Instruction) bool {
+		mu, ok := x.(*ssa.MapUpdate)
+		if !ok {
+			return false
+		}
+		u, ok := mu.Map.(*ssa.UnOp)
+		if !ok {
+			return false
+		}
+		f := fieldOfAddr(u.X)
+		return f != nil && f.Name() == "streams"
+	}
+	registered := &calledEv{name: "streams[name] = stream", match: isStreamsUpdate}
+	c.need(rule, bind, "return", func(x ssa.Instruction) bool { _, ok := x.(*ssa.Return); return ok }, []Ev{registered}, all, "bindStream files the stream under the follower's name")
+	bc := P.Method(rs, "RegionSyncer", "broadcast")
+	c.saw(fnName(bc))
+	send := P.IMethod(rs, "ServerStream", "Send")
+	n := 0
+	for _, l := range loopsOf(bc) {
+		has := false
+		for b := range l.blocks {
+			for _, ins := range b.Instrs {
+				if isCallTo(ins, send) {
+					has = true
+				}
+			}
+		}
+		if !has {
+			continue
+		}
+		n++
+		c.Check(everyIterationCalls(l, func(x ssa.Instruction) bool { return isCallTo(x, send) }), rule, "streams served by "+fnName(bc), "every registered follower is sent every broadcast", P.pos(bc.Pos()), "an iteration can pass without Send")
+	}
+	if n == 0 {
+		c.Undec(rule, "loop over the streams in "+fnName(bc), "found", P.pos(bc.Pos()), "")
 	}
 }
